@@ -41,6 +41,25 @@ CHECKS["C01"] = {
     "design": "DESIGN.md 5 C01",
 }
 
+CHECKS["C02"] = {
+    "text": "Model of the opening step (who is dealt in, the hand's player list incl. the fake-dealer search, labels, PlayerSettings; Go index panics explicit). Theorems for an arbitrary seat count and any arrangement of sitting-out / busted players, live or dead button: on default-rule tables the hand's player list is one full clockwise turn of the seat map from a seat of the table - exactly the dealt-in players, each once, in strictly increasing clockwise distance (StronglySorted), given the seat-map/player-list bijection of C03 and the dealt-in big blind of C04; stack = bankroll and result routing through GamePlayerIndexes are regenerated from startGame/settleGame on every run. Short-deck order is refuted with a witness (finding F10). Correspondence: ~700 opened hands per quick run on real tables with explicit seat layouts, dead buttons, sit-outs, busts, re-buys: the model recomputes list / flags / labels / settings from the same state and is compared; C02_ok (incl. which seat the turn starts from) is evaluated on every published snapshot and on the PlayerSettings captured at CreateGame.",
+    "note": "Partial: the choice of the start seat with a dead button and stability of the list while a hand runs (a dealt-in player leaving mid-hand, F9) are decided by the monitor / described in DESIGN.md, not proved. Trusted: Coq kernel + vm_compute; translator facts; hand-written Model/OpenHand.v tied by differential execution.",
+    "technique": "Rocq proof (general-n clockwise-walk lemmas) + facts regenerated from source + differential correspondence on opened hands",
+    "design": "DESIGN.md 5 C02",
+}
+CHECKS["C05"] = {
+    "text": "Theorems (any seat count): the dealt-in flags set at open are exactly the seat manager's Active() per player; a successful rotation never drops a dealt-in player (dealt in, chips kept, still seated => dealt in next hand) and leaves at least two dealt in (built on C04's rotation lemmas). The arrival rule and the three-hand bound are not proved in Coq (theorem names carry _partial): they are decided on every run by the decidable C05_ok evaluated on every opened hand of driven histories (newcomer / waiting-at-arrival / missed-hand bookkeeping computed from the history), with the opening-step model compared with the implementation on each.",
+    "note": "Partial as stated. Trusted: Coq kernel + vm_compute; Model/OpenHand.v and Model/SeatManager.v tied by differential execution; the harness's history bookkeeping for the monitor.",
+    "technique": "Rocq proof on the rotation/opening model + decidable monitor on observed opens + differential correspondence",
+    "design": "DESIGN.md 5 C05",
+}
+CHECKS["C06"] = {
+    "text": "newPositions and the rotation offset are regenerated from position.go. Theorems: the generated rotated label table equals an independently written standard order for every slot count 3..10; for EVERY table of 2..7 seats, every set of dealt-in seats and every button placement the rotation rule can produce, the model's label hand-out is the standard order clockwise from the big blind with dead button / dead small blind skipped, nobody else carries a label, and no empty slice is indexed (finite sweep over ~64 000 configurations by vm_compute, lifted to a universally quantified theorem with the bound in its statement). Sizes 8..10, the labels the hand engine receives and the next-big-blind order are decided on every run by C06_labels_ok / C06_next_bb_ok on every observed open and settlement, with model/implementation equality on each.",
+    "note": "Partial for 8..10 seats (no general-n proof of the hand-out loop). Trusted: Coq kernel + vm_compute; translator for the label table; Model/OpenHand.v tied by differential execution.",
+    "technique": "label table regenerated from source + Rocq finite-sweep proof lifted by lemma (bound stated) + monitors and differential correspondence",
+    "design": "DESIGN.md 5 C06",
+}
+
 NOT_YET = "not built yet in this round (work in progress; the design claims it, see DESIGN.md 5)"
 
 
@@ -56,7 +75,7 @@ def main():
                   "source_commits": hook_commits, "add_only": True},
         "engines": [
             {"name": "rocq-model", "path": "coq/", "serves_properties": sorted(CHECKS), "kind_free_text": "Coq 8.16.1 development: executable model, decidable specifications, theorems; vm_compute correspondence against Go traces"},
-            {"name": "translator", "path": "translator/", "serves_properties": ["C01", "C04", "C17"], "kind_free_text": "go/ast translator regenerating coq/Gen/*.v from /repo on every run"},
+            {"name": "translator", "path": "translator/", "serves_properties": ["C01", "C02", "C04", "C06", "C17"], "kind_free_text": "go/ast translator regenerating coq/Gen/*.v from /repo on every run"},
             {"name": "harness", "path": "harness/", "serves_properties": sorted(CHECKS), "kind_free_text": "Go drivers (-tags verif) running the real packages and printing traces as Gallina terms"}],
         "checks": [], "not_applicable": [], "notes": "see DESIGN.md; known findings in known_findings.json",
     }
